@@ -79,6 +79,8 @@ type State struct {
 	ID       int
 	Trace    []string // recent call trace for diagnostics
 	mergeDone bool
+	mergeDepth int
+	pf        *Portfolio
 	mergeRet  Value
 }
 
